@@ -342,6 +342,33 @@ func init() {
 				add(&CLICase{What: "comment-encoding", Src: src, RefSrc: []byte("\tMOV AL,1\n\tMOV BL,2\n\tMOV CL,3\n\tHLT\n"), Cell_: fmt.Sprintf("comments shift_jis trail-at-eol %x", ch[len(ch)-1])})
 			}
 		}
+		// sources longer than the window an encoding sniffer looks at (1 KiB, 4 KiB), whose beginning and end are in different
+		// "apparent" encodings: Shift_JIS text that happens to be valid UTF-8 up front (half-width katakana pairs) and kanji further down,
+		// a UTF-8 header followed by Shift_JIS comments, and the reverse
+		{
+			early := [][]byte{{0xca, 0xba, 0x20, 0xd6, 0xba, 0x20, 0xc3, 0xb7}, []byte("\xe6\x97\xa5\xe6\x9c\xac\xe8\xaa\x9e header"), {0x93, 0xfa, 0x96, 0x7b}, []byte("plain ascii")}
+			late := [][]byte{{0x8f, 0x49, 0x97, 0xb9, 0x8f, 0x88, 0x97, 0x9d, 0x81, 0x69, 0x95, 0x5c, 0x8e, 0xa6, 0x81, 0x6a}, []byte("\xe7\xb5\x82\xe4\xba\x86"), {0xb1, 0xb2, 0xb3}, {0x83, 0x5c}}
+			for ei, e := range early {
+				for li, l := range late {
+					for _, fill := range []int{70, 300} {
+						var src, ref []byte
+						src = append(src, "; "...)
+						src = append(src, e...)
+						src = append(src, '\n')
+						for k := 0; k < fill; k++ {
+							line := fmt.Sprintf("\tMOV AL,%d\n\tADD BX,2\n", k%200)
+							src = append(src, line...)
+							ref = append(ref, line...)
+						}
+						src = append(src, "\tHLT ; "...)
+						src = append(src, l...)
+						src = append(src, "\n\tNOP\n"...)
+						ref = append(ref, "\tHLT\n\tNOP\n"...)
+						add(&CLICase{What: "comment-encoding", Src: src, RefSrc: ref, Cell_: fmt.Sprintf("comments long-source early=%d late=%d lines=%d", ei, li, fill)})
+					}
+				}
+			}
+		}
 		// --- failing runs never leave a partial image
 		junk := bytes.Repeat([]byte("OLD!"), 300)
 		for _, f := range []struct {
